@@ -184,7 +184,7 @@ def _parse_body(blt_lines: Iterable[str],
         else:
             weight, ballot = _parse_ballot(result)
             if oneplus_weights and weight < 1:
-                raise ValueError(f'ballot weight <1: {line!r}')
+                raise BLTParseError(f'ballot weight <1: {line!r}')
             if ballot not in ballots:
                 ballots[ballot] = 0
             if isinstance(weight, Fraction) != isinstance(
